@@ -506,6 +506,7 @@ func init() {
 		cases := fs.String("cases", "cases.ndjson", "")
 		out := fs.String("out", "trace.ndjson", "")
 		prop := fs.String("prop", "C08", "")
+		tag := fs.String("tag", "case", "")
 		shard := fs.Int("shard", 0, "")
 		nshards := fs.Int("nshards", 1, "")
 		fs.Parse(args)
@@ -525,7 +526,7 @@ func init() {
 			if c.K != nil {
 				kk = *c.K
 			}
-			replayCalcCase(cw, &c, fmt.Sprintf("%s-case-%d", *prop, kk), kk)
+			replayCalcCase(cw, &c, fmt.Sprintf("%s-%s-%d", *prop, *tag, kk), kk)
 		})
 		restore()
 		cw.close()
